@@ -7,7 +7,7 @@ SPEC = {
     "suites": [
         Suite(name="endpoint", harness="vh_endpoint", runner="endpoint", godev=True,
               model_deps=["theories/Model/Endpoint.vo"],
-              quick_n=300, thorough_n=6000,
+              quick_n=1200, thorough_n=12000,
               rule="95% sessions of 1..4 requests on a fresh storage directory through the REAL handler built by "
                    "telemetrygodev's newHandler (mux + Log, Timeout, RequestSize, Recover + handleUpload + validate; file "
                    "system buckets), called via httptest: 85% POST, 15% GET/PUT/DELETE/HEAD/PATCH/OPTIONS/'post'; bodies: "
